@@ -1,6 +1,8 @@
 """C04 - log-densities are the documented normalised densities in every parameterisation.
 
-Spec: specs/Families.tla (+ lib/SymLog.tla, DiffOps.tla); part `Reassign` of the same module for sequences on one object.  TLC enumerates the parameter lattice of every family, checks
+Spec: specs/Families.tla (+ lib/SymLog.tla, DiffOps.tla); part `Reassign` of the same module for sequences on one object;
+specs/FamiliesSib.tla (parts Siblings, Buffers) and specs/DiffOpsLive.tla (part Live) for objects derived from one another, argument
+arrays rewritten in place and parameters edited in place (replay: harness/cuqiverif/c04_round6.py).  TLC enumerates the parameter lattice of every family, checks
 SameDistribution / QuadIdentity / Unnormalised / NaNOutside / OutcomeTable on the specification and emits the exact
 expected log-density (symbolic-log coefficients), cdf and gradient of every configuration.  This module builds the real
 cuqi distributions in every documented way of passing the parameters and compares logpdf / pdf / cdf / logd.
@@ -22,7 +24,16 @@ META = {
              "after every assignment; the harness builds one object, replaces its parameters through the public attributes / "
              "setters (also in another shape of the Gaussian matrix input), cold (assign first, evaluate later), warm (every "
              "observable evaluated before) and evaluating after each assignment, and compares logpdf / pdf / logd / cdf / "
-             "compute_cov / cov / sqrtprec with the expectation of a freshly built object of the current parameters."),
+             "compute_cov / cov / sqrtprec with the expectation of a freshly built object of the current parameters. Round 6 "
+             "(specs/FamiliesSib.tla, specs/DiffOpsLive.tla): Siblings - heap model of objects derived from one another (copy.copy, O(), "
+             "conditioning, the prior held by a Posterior) + public setters, invariant SibOwnParameters, deviation DevInPlaceSetter "
+             "refuted; every emitted behaviour class is driven on every family and every Gaussian (form, shape): after a setter on one "
+             "object logpdf / pdf / logd / cdf of the OTHERS must be those of their own parameters. Buffers - the arrays of the "
+             "conditioning values and of the evaluation point are rewritten IN PLACE between calls of logd (keyword / positional), "
+             "O(values).logpdf|logd|pdf|cdf, likelihood evaluation and plain evaluation (BufContentAtCallTime, deviation DevIdentityMemo "
+             "refuted); each value is that of the content at call time and no call modifies its arguments. Live - parameters tagged Live "
+             "in the spec are edited in place through the getter-returned array; the density is the documented one at the values the "
+             "getters report at that moment (LvReportedIsUsed, deviation DevKeepsDerived refuted)."),
     "note": ("Bounded rational lattices (dyadic scales, integer shapes, smooth integers under logarithms); that the documented "
              "formulas integrate to one is trusted mathematics; Gaussian cdf compared at scipy's integration accuracy; sparse "
              "non-diagonal Gaussians refuse logpdf without cholmod (accepted); user-defined distributions: pass-through of the "
